@@ -34,28 +34,7 @@ def run(ctx):
 
     # ------------------------------------------------------------------ R03.1
     from ..product import Explorer
-    r = ctx.rule("R03.1", "the tokenizer automaton extracted from the expanded source agrees with the WHATWG reference model on every input: same token emissions in the same step with the same raw extent and equal tag-name / attribute / comment / doctype ranges and flags, same attribute starts, same end-of-input events (product exploration over all reachable configurations, all 256 bytes + EOF, all oracle answers, every tree-builder choice of text state)", "E-SM product exploration vs spec/whatwg_tokenizer.py", floor=2000, exhaustive=True)
-    from ..product import spec_selfcheck
-    nchk, bad = spec_selfcheck()
-    if bad:
-        raise EngineError("R03.1: the WHATWG reference model fails its own sanity facts: %s" % bad)
-    r.analysed["reference_model_selfchecks"] = nchk
-    ex = Explorer(g, aut)
-    ex.explore()
-    r.instances = ex.configs
-    r.nontrivial = set(ex.pairs)
-    r.analysed.update({"configurations": ex.configs, "state_pairs": len(ex.pairs), "emissions_compared": ex.emissions, "attributes_compared": ex.attr_compared, "ranges_compared": ex.ranges_compared})
-    r.samples = ex.samples[:4]
-    seen_m = set()
-    for m_ in ex.mismatches:
-        mm = re.search(r"on (\w+_state) \[([^\]]*)\]", m_)
-        key = (mm.group(1) + "|" + mm.group(2)) if mm else m_[:80]
-        if key in seen_m:
-            continue
-        seen_m.add(key)
-        r.violate(key, m_[:900], shared.state_loc(mm.group(1)) if mm else None)
-    if not ex.mismatches and (ex.emissions < 1000 or len(ex.pairs) < 90):
-        raise EngineError("R03.1: the product exploration covered only %d emissions / %d state pairs" % (ex.emissions, len(ex.pairs)))
+    rule_product(ctx, g, aut)
 
     # ------------------------------------------------------------------ R03.5
     r = ctx.rule("R03.5", "a tag emission is always followed by the dynamic text state (emit_tag may have changed the text type through tree-builder feedback); a literal transition into a text state happens only where the text type provably equals that state's type", "E-SM dataflow", floor=12)
@@ -325,24 +304,18 @@ def run(ctx):
         if not any(w[1] and w[1][-1] == "Lexer.current_tag_token" and var in w[2] for w in ws):
             r.violate(fn, f"Lexer::{fn} does not create a fresh {var} outline", f.loc())
 
-    # ------------------------------------------------------------------ R03.7
-    r = ctx.rule("R03.7", "a self-closing start tag opens no namespace scope (WHATWG: the element is popped at once, so `<svg/>`, `<math/>`, `<title/>` in SVG … leave the insertion mode as it was): every TreeBuilderSimulator::enter_ns reached from start-tag feedback is control-dependent on the tag's self_closing flag; leave_ns on a start tag needs no such test", "E-MIR control dependence", floor=4)
-    for f, bi, t in mir.callers_of(r"TreeBuilderSimulator::enter_ns$"):
-        if mir.is_test_fn(f):
-            continue
-        nsarg = f.deep(t["args"][1]).split("::")[-1].split(":")[0].strip("{} ")
-        key = "enter_ns|" + f.key + "|" + nsarg
-        guards = [f.deep(f.blocks[sb]["term"]["d"]) for sb in guarding_branches(f, bi)]
-        ok = any("self_closing" in g for g in guards)
-        r.inst(key, sample={"fn": f.key, "namespace": nsarg, "guards": [g[:70] for g in guards]})
-        if not ok:
-            r.violate(key, f"{f.key} enters namespace {nsarg} for a start tag without testing its self-closing flag: after a self-closing tag the simulator stays in that namespace, so text-mode switches (<textarea>, <style>, <script>…), CDATA permission and namespace_uri() differ from a WHATWG parser until a matching end tag happens to follow", f.loc())
+    rule_self_closing_ns(ctx, mir)
 
     rule_foreign_feedback_table(ctx, idx, T)
     # ------------------------------------------------------------------ R03.9 (shared with C06 R06.1)
     # tokenization must not depend on which of the two state machines saw the tree-builder feedback: the bookmark carries it
     from .c06 import rule_bookmark
     rule_bookmark(ctx, mir, rid="R03.9")
+
+    # ------------------------------------------------------------------ R03.10 (shared with C06 R06.2)
+    # per-tag scratch of the tag scanner (is_in_end_tag ...) decides which feedback the simulator is asked for
+    from .c06 import rule_sticky_scratch
+    rule_sticky_scratch(ctx, mir, idx, rid="R03.10")
 
     ctx.not_decided += ["tree-builder simulation beyond the tables (arbitrary mis-nesting in foreign content)", "hash collisions of LocalNameHash", "full token-boundary equivalence with the WHATWG tokenizer is rule R03.1 (product exploration), reported separately when present"]
     return ("Automaton-level dataflow of the text type over all %d states (every literal transition into a text state and every tag emission), "
@@ -513,3 +486,45 @@ def clause_strict_gates_guard(r, mir):
         others = [bi for bi, t in f.calls() if bi != tc[0] and not re.search(r"branch|from_residual", callee_key(t))]
         if any(f.dominates(true_t, o) and not f.dominates(false_t, o) and o not in f.reachable_blocks(false_t) for o in others):
             r.violate(nm + "|strict-only-work", f"{nm}: work other than the guard happens only in strict mode", f.loc())
+
+
+def rule_product(ctx, g, aut, rid="R03.1"):
+    r = ctx.rule(rid, "the tokenizer automaton extracted from the expanded source agrees with the WHATWG reference model on every input: same token emissions in the same step with the same raw extent and equal tag-name / attribute / comment / doctype ranges and flags, same attribute starts, same end-of-input events (product exploration over all reachable configurations, all 256 bytes + EOF, all oracle answers, every tree-builder choice of text state)", "E-SM product exploration vs spec/whatwg_tokenizer.py", floor=2000, exhaustive=True)
+    from ..product import spec_selfcheck, Explorer
+    nchk, bad = spec_selfcheck()
+    if bad:
+        raise EngineError(rid + ": the WHATWG reference model fails its own sanity facts: %s" % bad)
+    r.analysed["reference_model_selfchecks"] = nchk
+    ex = Explorer(g, aut)
+    ex.explore()
+    r.instances = ex.configs
+    r.nontrivial = set(ex.pairs)
+    r.analysed.update({"configurations": ex.configs, "state_pairs": len(ex.pairs), "emissions_compared": ex.emissions, "attributes_compared": ex.attr_compared, "ranges_compared": ex.ranges_compared})
+    r.samples = ex.samples[:4]
+    seen_m = set()
+    for m_ in ex.mismatches:
+        mm = re.search(r"on (\w+_state) \[([^\]]*)\]", m_)
+        key = (mm.group(1) + "|" + mm.group(2)) if mm else m_[:80]
+        if key in seen_m:
+            continue
+        seen_m.add(key)
+        r.violate(key, m_[:900], shared.state_loc(mm.group(1)) if mm else None)
+    if not ex.mismatches and (ex.emissions < 1000 or len(ex.pairs) < 90):
+        raise EngineError(rid + ": the product exploration covered only %d emissions / %d state pairs" % (ex.emissions, len(ex.pairs)))
+
+
+
+def rule_self_closing_ns(ctx, mir, rid="R03.7"):
+    # ------------------------------------------------------------------ R03.7
+    r = ctx.rule(rid, "a self-closing start tag opens no namespace scope (WHATWG: the element is popped at once, so `<svg/>`, `<math/>`, `<title/>` in SVG … leave the insertion mode as it was): every TreeBuilderSimulator::enter_ns reached from start-tag feedback is control-dependent on the tag's self_closing flag; leave_ns on a start tag needs no such test", "E-MIR control dependence", floor=4)
+    for f, bi, t in mir.callers_of(r"TreeBuilderSimulator::enter_ns$"):
+        if mir.is_test_fn(f):
+            continue
+        nsarg = f.deep(t["args"][1]).split("::")[-1].split(":")[0].strip("{} ")
+        key = "enter_ns|" + f.key + "|" + nsarg
+        guards = [f.deep(f.blocks[sb]["term"]["d"]) for sb in guarding_branches(f, bi)]
+        ok = any("self_closing" in g for g in guards)
+        r.inst(key, sample={"fn": f.key, "namespace": nsarg, "guards": [g[:70] for g in guards]})
+        if not ok:
+            r.violate(key, f"{f.key} enters namespace {nsarg} for a start tag without testing its self-closing flag: after a self-closing tag the simulator stays in that namespace, so text-mode switches (<textarea>, <style>, <script>…), CDATA permission and namespace_uri() differ from a WHATWG parser until a matching end tag happens to follow", f.loc())
+
